@@ -1,7 +1,7 @@
 (* C06 — truncated or mistyped input is rejected, never decoded into made-up data. Statements only. *)
 From Coq Require Import List NArith ZArith.
 From TarsV Require Import Base.Hex Codec.Wire Codec.Skip Codec.Prim Codec.PrimProofs Codec.GenCodec Codec.Corr Codec.GenProofs
-  Codec.RoundTrip Codec.RoundTripProofs Codec.PrefixProofs Codec.PrefixGenProofs Codec.RoundTripExamples Gen.Schemas.
+  Codec.RoundTrip Codec.RoundTripProofs Codec.PrefixProofs Codec.PrefixGenProofs Codec.RoundTripExamples Codec.CorrT Gen.Schemas.
 Import ListNotations.
 Open Scope N_scope.
 
